@@ -1312,3 +1312,62 @@ def run_vh(case):
 
 def run_vhs(cases):
     return [run_vh(c) for c in cases]
+
+
+# ------------------------------------------------------------------------------------------------ structure look-alikes
+LA_ALPHA = ["\\", '"', "a", " ", ";", "=", ","]
+LA_VALUES = ["a.txt; size=1", "x; name=evil", ";a=a", "a;b", 'a; b="c"', "\\\\server\\share", 'a\\"b', "a\\", "\\", "\\\\", '\\"', '"', '""', ", k=v", '", x="',
+             'x", name="y', 'x"; name="y', "a, size=2", 'a="b"', "k=v; k=w", " ; name=x", "; name=x", ";name=x;", "a,b", "a=b", "=", ",", ";", "a; size=1; name=q",
+             'a\\\\"; name=x', 'a\\"; name="x', "name=x", "size=2, k=w", "k=w, x=y", ' "a" ', '"a"', "'a'", "a\\\\", 'a\\\\"', '\\\\\\"', "a\tb; name=x"]
+
+
+def _la_strings(maxlen=4):
+    out = [""]
+    level = [""]
+    for _ in range(maxlen):
+        level = [s + ch for s in level for ch in LA_ALPHA]
+        out += level
+    return out
+
+
+def lookalike_cases():
+    """Deterministic: every string of length <= 4 over \\ " a SP ; = , as a value of the options, dict and list codecs (next to
+    another parameter whose key the text may mention), and hand-written look-alikes of each codec's own syntax for every
+    codec that quotes on demand (options, dict, list, set, cache-control, auth parameters, CSP)."""
+    cases = []
+
+    def add(codec, j, variant=""):
+        cases.append({"op": "la", "codec": codec, "j": j, "variant": variant})
+
+    for s in _la_strings(4):
+        v = cps(s)
+        add("options", {"main": cps("a/b"), "opts": [[cps("name"), v], [cps("size"), cps("1")]]})
+        add("dict", [[cps("k"), v], [cps("x"), cps("1")]])
+        add("list", [v, cps("b")])
+    for s in LA_VALUES:
+        v = cps(s)
+        add("options", {"main": cps("attachment"), "opts": [[cps("filename"), v], [cps("name"), cps("n")], [cps("size"), cps("1")]]})
+        add("options", {"main": cps("form-data"), "opts": [[cps("name"), cps("n")], [cps("b"), cps("0")], [cps("a"), v]]})
+        add("dict", [[cps("k"), v], [cps("x"), cps("1")], [cps("size"), list(NONE)]])
+        add("dict", [[cps("name"), cps("n")], [cps("k"), v]])
+        add("list", [cps("b"), v, cps("k=v")])
+        add("set", [v, cps("k=v"), cps("b")])
+        add("cachecontrol", {"cls": "resp", "items": [], "assigns": [[cps("private"), tv(s)], [cps("max_age"), tv(5)], [cps("no_cache"), tv(s)]]})
+        add("cachecontrol", {"cls": "req", "assigns": [], "items": [[cps("max-age"), cps("5")], [cps("x-ext"), v], [cps("k"), cps("1")]]})
+        for cls in ("authz", "wwwauth"):
+            for ty in ("digest", "custom"):
+                add("authparam", {"cls": cls, "none": False, "type": cps(ty), "token": list(NONE),
+                                  "params": [[cps("realm"), v], [cps("nonce"), cps("n")], [cps("k"), v], [cps("x"), cps("1")]]})
+        if ";" not in s and s.strip() == s and s:
+            add("csp", [[cps("default-src"), v], [cps("script-src"), cps("'self'")]])
+    return cases
+
+
+def run_la(case):
+    rec = run_case(dict(case, op="rt"))
+    rec["op"] = "la"
+    return rec
+
+
+def run_las(cases):
+    return [run_la(c) for c in cases]
